@@ -409,28 +409,58 @@ Lemma nr_set_nodelay_frame k nd iv rs nc : nr_rcv (set_nodelay k nd iv rs nc) = 
 Proof. unfold set_nodelay. destruct (nd >=? 0); reflexivity. Qed.
 
 (* flush only reads the receive side *)
+Ltac nr_let1 H n :=
+  match type of H with
+  | (let x := ?X in @?B x) = ?R => set (n := X) in H; change (B n = R) in H; cbv beta in H
+  end.
+
 Lemma nr_flush_frame k ft now k' nx o : flush k ft now = Ok (k', nx, o) -> nr_rcv k' = nr_rcv k.
 Proof.
-  unfold flush. cbv zeta. intros H.
+  intros H. cbv beta delta [flush] in H.
+  nr_let1 H h0. clearbody h0. nr_let1 H st0. clearbody st0.
   match type of H with match ?X with _ => _ end = _ =>
     destruct X as [[[h1 st1] k1]|w] eqn:E1; [|discriminate] end.
   assert (R1 : nr_rcv k1 = nr_rcv k).
   { destruct ((ft =? FLUSH_ACKONLY) || (ft =? FLUSH_FULL)).
-    - destruct (flush_acks k _ _ (acklist k)) as [[h st]|w]; [|discriminate].
+    - destruct (flush_acks k h0 st0 (acklist k)) as [[h st]|w]; [|discriminate].
       inversion E1; subst. reflexivity.
     - inversion E1; subst. reflexivity. }
   clear E1.
+  nr_let1 H k2.
+  assert (R2 : nr_rcv k2 = nr_rcv k1).
+  { unfold k2. destruct (rmt_wnd k1 =? 0); [|reflexivity].
+    destruct (probe_wait k1 =? 0); [reflexivity|].
+    destruct (itimediff now (ts_probe k1) >=? 0); reflexivity. }
+  clearbody k2.
+  nr_let1 H wask. clearbody wask. nr_let1 H wins. clearbody wins. nr_let1 H hdr. clearbody hdr.
   match type of H with match ?X with _ => _ end = _ =>
     destruct X as [st2|w]; [|discriminate] end.
   match type of H with match ?X with _ => _ end = _ =>
     destruct X as [st3|w]; [|discriminate] end.
+  nr_let1 H k3.
+  assert (R3 : nr_rcv k3 = nr_rcv k2) by reflexivity.
+  clearbody k3.
+  nr_let1 H cw0. clearbody cw0. nr_let1 H cw. clearbody cw.
   match type of H with match ?X with _ => _ end = _ =>
     destruct X as [[[sq sb] nxt] newsegs] end.
+  nr_let1 H k4.
+  assert (R4 : nr_rcv k4 = nr_rcv k3) by reflexivity.
+  clearbody k4.
+  nr_let1 H resent. clearbody resent. nr_let1 H a0. clearbody a0.
   match type of H with match ?X with _ => _ end = _ =>
     destruct X as [[sb' a]|w]; [|discriminate] end.
-  inversion H as [[Hk Hnx Ho]]. clear H Hnx Ho. rewrite <- R1.
-  repeat (rewrite ?nr_rcv_if; ksimpl; rewrite ?nr_if_same).
-  unfold nr_rcv. ksimpl. reflexivity.
+  nr_let1 H k5.
+  assert (R5 : nr_rcv k5 = nr_rcv k4) by reflexivity.
+  clearbody k5.
+  nr_let1 H k5'.
+  assert (R5' : nr_rcv k5' = nr_rcv k5) by (unfold k5'; destruct (f_dead a); reflexivity).
+  clearbody k5'.
+  nr_let1 H k6.
+  assert (R6 : nr_rcv k6 = nr_rcv k5').
+  { unfold k6. destruct (nocwnd k5' =? 0); [|reflexivity]. cbv zeta.
+    repeat (rewrite ?nr_rcv_if; ksimpl; rewrite ?nr_fr_cc; rewrite ?nr_if_same). reflexivity. }
+  clearbody k6.
+  inversion H; subst. congruence.
 Qed.
 
 Lemma nr_update_frame k now k' o : update k now = Ok (k', o) -> nr_rcv k' = nr_rcv k.
@@ -585,7 +615,7 @@ Proof.
   split; [rewrite HB; f_equal; lia|].
   rewrite HF. split.
   - rewrite messages_app by exact Hb. rewrite <- Hdl. f_equal.
-    unfold messages, A. rewrite Hm. reflexivity.
+    unfold messages. rewrite Hm. reflexivity.
   - unfold A. rewrite map_app, app_assoc. cbn [map]. apply nr_at_boundary_snoc.
     unfold pay. cbn [fst]. exact He.
 Qed.
